@@ -368,12 +368,18 @@ func (w *World) advanceTo(at time.Duration) {
 			if n.wakeAt > 0 && n.wakeAt == next {
 				due++
 			}
-			if n.realTrig != nil && n.realTrig.armed && !n.realTrig.seen && n.realTrig.expiry == next {
-				due++
+			if n.realTrig != nil && n.realTrig.armed && n.realTrig.expiry == next {
+				due++ // also one the caller has just announced as due (marked seen, not yet fired)
 			}
 		}
 		if due > 1 {
+			// nothing that happened in this run is judged from here on (in particular not the trigger the caller may
+			// already have announced as due: the clock never reaches its expiry)
 			w.timeUp = true
+			w.tainted = true
+			for _, n := range w.nodes {
+				n.dueTrigger = nil
+			}
 			w.probe("abandoned-library-timers-coincide")
 			return
 		}
@@ -407,6 +413,18 @@ func (w *World) advanceTo(at time.Duration) {
 const workerQueueCap = 1000
 
 func (n *Node) noteWorkerChoice(x verifhook.Choice, queued int) {
+	// the worker is between two items here: whatever height it reports, it has announced the round of that height
+	if w := n.w; w.checks("C13") && !n.shuttingDown && n.alive {
+		cur := n.hv()
+		for i := len(n.obs.newRounds) - 1; i >= 0; i-- {
+			if r := n.obs.newRounds[i]; r.epoch == n.epoch {
+				if cur.h != r.height {
+					w.violate("C13", "height-without-round", "n%d reports height %d when its worker looks for the next item, while the last round it announced is for height %d", n.idx, cur.h, r.height)
+				}
+				break
+			}
+		}
+	}
 	if queued != len(n.inbox) && !n.inboxUnknown {
 		// the harness's model of the queue disagrees with the queue length the hook reports: positions derived
 		// from it would be guesses, so the node's current message is unknown from here on (oracles abstain)
